@@ -100,6 +100,9 @@ def identical(I, run, a, b, node) -> bool:
         if a.v is None or b.v is None or isinstance(a.v, bool) or isinstance(b.v, bool):
             return a.v is b.v
         return type(a.v) is type(b.v) and a.v == b.v
+    for x, y in ((a, b), (b, a)):
+        if isinstance(x, C) and x.v is None and isinstance(y, (Sym, App)) and run.kind_of(y) in ("func", "obj"):
+            return False  # a callable / object symbol is some object, never None
     return decide_cmp(I, run, "==", a, b, node)
 
 
